@@ -19,7 +19,6 @@ package main
 import (
 	"context"
 	"fmt"
-	"os"
 	"sort"
 	"strings"
 
@@ -401,7 +400,7 @@ func leavesStr(m map[uint32]common.Hash) string {
 func run(c *mc.Ctx, u mc.Unit) {
 	p := u.Params.(params)
 	dir := sk.ScratchDir()
-	defer os.RemoveAll(dir)
+	defer kit.RemoveScratch(dir)
 	defer func() {
 		if x := recover(); x != nil {
 			if strings.HasPrefix(fmt.Sprintf("%T", x), "mc.") {
